@@ -545,7 +545,7 @@ class Check(PropertyCheck):
             "length L plus random longer ones on 1–3 flows.  distinct = distinct case; non-trivial = the target hook "
             "fired and was held (world) / at least one hook task started (async).")
     budget = {"quick": 3000, "thorough": 60000}
-    time_budget = {"quick": 35, "thorough": 500}
+    time_budget = {"quick": 20, "thorough": 500}
     fingerprints = ["mitmproxy.flow:Flow.intercept", "mitmproxy.flow:Flow.resume", "mitmproxy.flow:Flow.kill",
                     "mitmproxy.flow:Flow.wait_for_resume", "mitmproxy.flow:Flow.killable",
                     "mitmproxy.addons.intercept:Intercept.process_flow", "mitmproxy.addons.intercept:Intercept.should_intercept",
